@@ -233,15 +233,22 @@ void round_trip(const A15Plan *p)
   BufferWriter bw;
   WriteSizeCalculator calc;
   std::vector<size_t> ends;  // stream offset after each value
+  int vi = 0;
   for (auto &h : vals) {
     write_value(bw, h);
     write_value(calc, h);
+    if (p->flush_mask >> (vi++ & 14) & 1) {
+      bw.flush();
+      calc.flush();
+    }
     ends.push_back(bw.buffer->size());
     if (calc.writtenSize != bw.buffer->size()) {
       a15_fail("C15:size-calculator-differs", "WriteSizeCalculator and BufferWriter disagree on the byte count");
       return;
     }
   }
+  if (p->flush_mask >> 15 & 1)
+    bw.flush();
   size_t total = bw.buffer->size();
   size_t cut = total;
   if (p->mode == 1) {
@@ -401,6 +408,8 @@ void interleaved(const A15Plan *p)
     bool do_write = can_write && (!can_read || ((pattern >> (steps++ % 16)) & 1));
     if (do_write) {
       write_value(bw, vals[written]);
+      if (p->flush_mask >> (written & 14) & 1)
+        bw.flush();
       ends.push_back(bw.buffer->size());
       written++;
       continue;
